@@ -16,7 +16,7 @@ import shutil
 import sys
 from typing import Dict, List
 
-from jsonargparse import ActionConfigFile, ArgumentParser
+from jsonargparse import ActionConfigFile, ArgumentParser, Namespace
 from jsonargparse._common import parser_context_vars
 from jsonargparse._typehints import sub_defaults
 from jsonargparse._util import current_path_dir
@@ -69,10 +69,22 @@ def untyped(p):
     p.add_argument("targets", nargs="+", help="where to")
 
 
+def mapping_pair(p):
+    """two cooperating declarations: an argument whose declared default is a mapping, declared BEFORE an argument whose
+    dest lies below it; the dicts are the caller's own objects (kept in p.c08_user for the snapshot)"""
+    user = {"opts": {"mode": "fast"}, "lim": {"lo": 0}}
+    p.add_argument("--opts", type=dict, default=user["opts"])
+    p.add_argument("--opts.level", type=int, default=2)
+    p.add_argument("--lim", type=Dict[str, int], default=user["lim"])
+    p.add_argument("--lim.hi", type=int, default=9)
+    p.c08_user = user
+
+
 def declared(p, dests=None):
     """the declared defaults as the parser holds them: value, type and identity of action.default per action, plus what
     get_defaults() says once the default config files are taken away"""
     acts = [(a.dest, id(a.default), repr(a.default)) for a in p._actions if dests is None or id(a) in dests]
+    acts.append(("<the caller's own default objects>", 0, repr(getattr(p, "c08_user", None))))
     saved = p.default_config_files
     p.default_config_files = []
     try:
@@ -81,6 +93,10 @@ def declared(p, dests=None):
         d = "exc:" + type(e).__name__
     finally:
         p.default_config_files = saved
+    again = [(a.dest, id(a.default), repr(a.default)) for a in p._actions if dests is None or id(a) in dests]
+    again.append(("<the caller's own default objects>", 0, repr(getattr(p, "c08_user", None))))
+    if again != acts:
+        d += " <declared defaults changed by this very get_defaults() call>"
     return acts, d
 
 
@@ -97,6 +113,7 @@ def run(case, base, idx):
         p.add_argument("--a", type=int, default=1)
         p.add_argument("--l", type=List[int], default=[1])
         untyped(p)
+        mapping_pair(p)
         arg = ["--l", "[2, 3]", "--cfg", place(work, kind, "c.yaml", bad), "--a", "7"]
         call = lambda: p.parse_args(arg)
     elif entry in ("dflt_get_defaults", "dflt_help", "dflt_parse_args", "dflt_print_help"):
@@ -105,6 +122,7 @@ def run(case, base, idx):
         p.add_argument("--a", type=int, default=1)
         p.add_argument("--d", type=Dict[str, int], default={"k": 1})
         untyped(p)
+        mapping_pair(p)
         arg = []
         call = {"dflt_get_defaults": p.get_defaults, "dflt_help": p.format_help, "dflt_parse_args": lambda: p.parse_args(arg),
                 "dflt_print_help": lambda: p.print_help(io.StringIO())}[entry]
@@ -117,11 +135,33 @@ def run(case, base, idx):
         p = ArgumentParser(exit_on_error=False, env_prefix="APP", default_env=True)
         p.add_argument("--a", type=int, default=1)
         p.add_argument("--l", type=List[int], default=[1])
+        mapping_pair(p)
         arg = {"APP_A": "x" if fail else "3", "APP_L": "[4, 5]"}
         call = lambda: p.parse_env(arg)
+    elif entry in ("get_defaults", "parse_args", "parse_object", "parse_string", "dump_skip_default", "validate"):
+        # no files involved: the calls that compute the defaults of a parser with a mapping default and a child below it
+        p = ArgumentParser(exit_on_error=False)
+        p.add_argument("--a", type=int, default=1)
+        p.add_argument("--l", type=List[int], default=[1])
+        mapping_pair(p)
+        if entry == "get_defaults":
+            arg = []
+            call = p.get_defaults
+        elif entry == "parse_args":
+            arg = ["--a", "x" if fail else "3", "--opts.level", "4"]
+            call = lambda: p.parse_args(arg)
+        elif entry == "parse_object":
+            arg = {"a": "x" if fail else "3", "l": ["4"]}
+            call = lambda: p.parse_object(arg)
+        elif entry == "parse_string":
+            arg = ["a: x\n" if fail else "a: 3\nlim:\n  hi: 5\n"]
+            call = lambda: p.parse_string(arg[0])
+        else:
+            arg = Namespace(a="x" if fail else 3, l=[1, 2], opts={"mode": "slow", "level": 2}, lim={"lo": 0, "hi": 9})
+            call = (lambda: p.dump(arg, skip_default=True)) if entry == "dump_skip_default" else (lambda: p.validate(arg))
     else:
         raise SystemExit("unknown entry " + entry)
-    snap = json.dumps(arg, sort_keys=True)
+    snap = repr(arg)
     known = {id(a) for a in p._actions}   # parse_args may add helper actions lazily; they are not declarations
     d_before = declared(p)
     g_before = read_globals()
@@ -141,7 +181,7 @@ def run(case, base, idx):
     argparse.Namespace = ORIG_ARGPARSE_NS
     d_after = declared(p, known)
     shutil.rmtree(work, ignore_errors=True)
-    return {"ok": ok, "globals": gl, "args_same": json.dumps(arg, sort_keys=True) == snap, "defaults_same": d_before == d_after,
+    return {"ok": ok, "globals": gl, "args_same": repr(arg) == snap, "defaults_same": d_before == d_after,
             "exc": exc}
 
 
